@@ -38,7 +38,7 @@ def pm_of(cfg):
     if not CONFIGS[cfg].get("pm"):
         return None
     return dict(point_masses=[600.0], engine_thrusts=[5.0e3], point_mass_locations=[[1.1, -2.3, -0.35]])
-CELLS = [("aitken", "direct"), ("nlbgs", "direct"), ("newton", "direct"), ("newton", "lbgs"), ("newton", "krylov_plain"), ("aitken_f07", "direct"), ("nlbgs_apply", "direct")]
+CELLS = [("aitken", "direct"), ("nlbgs", "direct"), ("newton", "direct"), ("newton", "lbgs"), ("newton", "krylov_plain"), ("aitken_f07", "direct"), ("nlbgs_apply", "direct"), ("default", "default")]  # last: the library's own solver objects
 POINTS = [
     {"alpha": 4.0, "v": 100.0, "load_factor": 1.3, "wing.twist_cp": [2.0, 3.0, 1.0]},
     # P1 differs from P0 in the flight condition ONLY (same geometry and structure): a value cached on the structure alone
